@@ -511,6 +511,10 @@ func (encryptor *QueryDataEncryptor) getInsertPlaceholders(ctx context.Context, 
 				logger.WithFields(logrus.Fields{"value_index": i, "column_count": len(columns)}).Warningln("Amount of values in INSERT bigger than column count")
 				continue
 			}
+			// inline values (literals) are processed in OnQuery, here we are interested only in placeholders
+			if value.GetParamRef() == nil {
+				continue
+			}
 			err := encryptor.updatePlaceholderMap(valuesCount, placeholders, int(value.GetParamRef().GetNumber()), columns[i])
 			if err != nil {
 				return nil, err
@@ -603,6 +607,10 @@ func (encryptor *QueryDataEncryptor) encryptUpdateValues(ctx context.Context, up
 			continue
 		}
 
+		// inline values (literals) are processed in OnQuery, here we are interested only in placeholders
+		if target.GetResTarget().GetVal().GetParamRef() == nil {
+			continue
+		}
 		columnName := target.GetResTarget().GetName()
 		index := int(target.GetResTarget().GetVal().GetParamRef().GetNumber())
 		err := encryptor.updatePlaceholderMap(len(values), placeholders, index, columnName)
